@@ -217,8 +217,11 @@ type rewriter struct {
 	fnOf     map[ast.Node]string // enclosing function name of interesting nodes
 	labelOf  map[ast.Node]string // label for make(chan)
 	lhsStar  map[ast.Node]bool
-	selX     map[ast.Node]bool // StarExpr that is the X of a selector (handled through the selection)
-	rangeCh  map[ast.Node]bool // range statements over a channel
+	selX     map[ast.Node]bool     // StarExpr that is the X of a selector (handled through the selection)
+	rangeCh  map[ast.Node]bool     // range statements over a channel
+	initLit  map[ast.Node]string   // &T{...} of a struct with sync fields -> label
+	initVar  map[ast.Node][]string // DeclStmt declaring sync objects -> names
+	useVSync bool
 	nsel     int
 	useVS    bool
 	netFuncs bool
@@ -410,6 +413,46 @@ func (rw *rewriter) analyse(f *ast.File) {
 					}
 				}
 			}
+		case *ast.CompositeLit:
+			if t := rw.typeOf(x); t != nil {
+				if st, ok := t.Underlying().(*types.Struct); ok {
+					has := false
+					for i := 0; i < st.NumFields(); i++ {
+						if ft := st.Field(i).Type(); isSyncType(ft) {
+							if _, ptr := ft.(*types.Pointer); !ptr {
+								has = true
+							}
+						}
+					}
+					if has {
+						u, ok := parent.(*ast.UnaryExpr)
+						if !ok || u.Op != token.AND {
+							rw.fail(x, "struct with sync fields created by value: its sync objects would have no creation point")
+						}
+						name := "struct"
+						if n, ok := t.(*types.Named); ok {
+							name = n.Obj().Name()
+						}
+						rw.initLit[u] = name
+					}
+				}
+			}
+		case *ast.DeclStmt:
+			if gd, ok := x.Decl.(*ast.GenDecl); ok && gd.Tok == token.VAR {
+				for _, sp := range gd.Specs {
+					vs := sp.(*ast.ValueSpec)
+					if vs.Type == nil || len(vs.Values) != 0 {
+						continue
+					}
+					if t := rw.typeOf(vs.Type); t != nil && isSyncType(t) {
+						if _, ptr := t.(*types.Pointer); !ptr {
+							for _, n := range vs.Names {
+								rw.initVar[x] = append(rw.initVar[x], n.Name+"@"+curFn)
+							}
+						}
+					}
+				}
+			}
 		case *ast.IncDecStmt:
 			rw.markWrites(x.X)
 		case *ast.RangeStmt:
@@ -549,6 +592,9 @@ func (rw *rewriter) file(f *ast.File, rel string) ([]byte, bool) {
 	rw.lhsStar = map[ast.Node]bool{}
 	rw.selX = map[ast.Node]bool{}
 	rw.rangeCh = map[ast.Node]bool{}
+	rw.initLit = map[ast.Node]string{}
+	rw.initVar = map[ast.Node][]string{}
+	rw.useVSync = false
 	rw.useVS, rw.netFuncs, rw.timeFunc = false, false, false
 	for _, cg := range f.Comments {
 		for _, c := range cg.List {
@@ -603,7 +649,21 @@ func (rw *rewriter) file(f *ast.File, rel string) ([]byte, bool) {
 			}
 			rw.count("send")
 			c.Replace(&ast.ExprStmt{X: method(x.Chan, "Send", x.Value)})
+		case *ast.DeclStmt:
+			for _, lbl := range rw.initVar[x] {
+				name := lbl[:strings.Index(lbl, "@")]
+				rw.count("sync-init")
+				rw.useVSync = true
+				c.InsertAfter(&ast.ExprStmt{X: &ast.CallExpr{Fun: &ast.SelectorExpr{X: ast.NewIdent("vsync"), Sel: ast.NewIdent("Init")},
+					Args: []ast.Expr{&ast.UnaryExpr{Op: token.AND, X: ast.NewIdent(name)}, str(lbl)}}})
+			}
 		case *ast.UnaryExpr:
+			if lbl, ok := rw.initLit[x]; ok {
+				rw.count("sync-init")
+				rw.useVSync = true
+				c.Replace(&ast.CallExpr{Fun: &ast.SelectorExpr{X: ast.NewIdent("vsync"), Sel: ast.NewIdent("InitFields")}, Args: []ast.Expr{x, str(lbl)}})
+				return true
+			}
 			if x.Op != token.ARROW || rw.skip[x] {
 				return true
 			}
@@ -774,6 +834,9 @@ func (rw *rewriter) file(f *ast.File, rel string) ([]byte, bool) {
 	}
 	if rw.useVS {
 		astutil.AddNamedImport(rw.pkg.Fset, f, "vsched", "verif/shim/vsched")
+	}
+	if rw.useVSync {
+		astutil.AddNamedImport(rw.pkg.Fset, f, "vsync", "verif/shim/vsync")
 	}
 	f.Comments = nil
 	f.Doc = nil
